@@ -833,10 +833,13 @@ statement with `raw.resolve = some t`).  It is proved below for the decidable fr
   Runtime(In)VisibleAnnotations Runtime(In)VisibleTypeAnnotations` + unknown attributes;
   methods with `Deprecated Synthetic Code Exceptions Signature Runtime(In)VisibleAnnotations
   Runtime(In)VisibleTypeAnnotations AnnotationDefault MethodParameters` + unknown attributes;
-  **`Code`** (`ClassWriteFull.CodeOk`, `Lemmas/ClassWriteFullCode.lean`): every instruction kind except `invokedynamic`
-  and `ldc` of a `Dynamic` constant (so no `BootstrapMethods`) — constants, locals in all widths, all 16 conditional
-  branches, `goto`, `jsr`, `ret`, both switches, field / method / interface-method references, method handles and
-  method types, class operands — in a method body of **at most 32767 bytes by the syntactic bound** `maxSizeR` (the
+  **`Code`** (`ClassWriteFull.CodeOk`, `Lemmas/ClassWriteFullCode.lean`): every instruction kind — constants, locals in
+  all widths, all 16 conditional branches, `goto`, `jsr`, `ret`, both switches, field / method / interface-method
+  references, method handles and method types, class operands, **`invokedynamic` and `ldc` of `Dynamic` constants**
+  (bootstrap arguments nested within the reader's limit of 16 levels) with the **`BootstrapMethods`** attribute the
+  writer assembles after the members (`Lemmas/ClassWriteFullCodeDyn.lean`: rows are only appended, so the row index in
+  a `Dynamic` / `InvokeDynamic` entry designates the same row of the final table; the handles enter the pool when the
+  attribute is written) — in a method body of **at most 32767 bytes by the syntactic bound** `maxSizeR` (the
   longest form of every instruction: then no jump is widened and no conditional branch becomes an inverted-condition
   trampoline, which the reader would read back as two instructions), with its `StackMapTable` (frames of all five
   kinds on any instructions, `Object` types with valid class names, `Uninitialized` labels on instructions: the written
@@ -855,8 +858,7 @@ statement with `raw.resolve = some t`).  It is proved below for the decidable fr
 * names valid where the reader validates them, access flags within the masks the tree can hold, unknown attributes not
   named like a known one (`ClassOk`), every constant and string of the pool the writer builds within its field
   (`PoolOkOf`: the operand ranges of duke's tree types);
-* not yet in the fragment (modelled and tied byte-exactly, no read-back theorem): `invokedynamic` / `Dynamic` constants
-  (hence `BootstrapMethods`), method bodies beyond the 32767-byte bound (widened jumps: covered
+* not yet in the fragment (modelled and tied byte-exactly, no read-back theorem): method bodies beyond the 32767-byte bound (widened jumps: covered
   for the code array alone by sections 1-4), unknown attributes of `Code`.
 
 Route: the bytes are `(layout).encode` for the `ClassRead.Spec.ClassLayout` the writer chooses (its pool, its indices,
@@ -981,8 +983,9 @@ def exampleModule : ClassRead.ClassFacts :=
 example : ClassWriteFull.InWriterFragment exampleModule := by decide +kernel
 example : (match ClassWriteFull.writeClass exampleModule with | .ok _ => true | .error _ => false) = true := by decide +kernel
 
-/-- non-vacuity, `Code`: a class with a constructor-like method whose body has a field access, an `ldc` of a string, a
-method call, a conditional branch and a `goto` (labels 2 and 3), an `iinc`, a protected range with a handler (labels
+/-- non-vacuity, `Code`: a class with a method whose body has an `invokedynamic` (bootstrap arguments: an `int` and a
+`Dynamic` constant with a `String` argument), an `ldc2_w` of a `Dynamic` constant of type `J`, a field access, an `ldc`
+of a string, a method call, a conditional branch and a `goto` (labels 2 and 3), an `iinc`, a protected range with a handler (labels
 1, 2, 4; the catch type `java/lang/Exception`), stack map frames on the branch target (`append [int]`), the handler
 (`same_locals_1_stack_item [Object java/lang/Exception]`) and the `goto` target (`full` with an `Uninitialized(label 1)`),
 a line table, a local variable with a descriptor and one with a signature (live to the end of the code: `last_label` 5) -/
@@ -994,7 +997,10 @@ def exampleCode : ClassRead.ClassFacts :=
          some
            { maxStack := 2, maxLocals := 2,
              insns :=
-               [⟨none, none, .field 0xb2 ⟨[83], [111, 117, 116], [76, 80, 59]⟩⟩,
+               [⟨none, none, .invokedynamic ⟨[114, 117, 110], [40, 41, 86], ⟨6, ⟨[66], [98], [40, 41, 86]⟩, false⟩,
+                   [.int 7, .dyn [99] [73] ⟨6, ⟨[66], [98], [40, 41, 86]⟩, true⟩ [.str [115]]]⟩⟩,
+                ⟨none, none, .ldc (.dyn [100] [74] ⟨2, ⟨[66], [102], [74]⟩, false⟩ [.long 5])⟩,
+                ⟨none, none, .field 0xb2 ⟨[83], [111, 117, 116], [76, 80, 59]⟩⟩,
                 ⟨none, none, .ldc (.str [104, 105])⟩,
                 ⟨none, none, .invokevirtual ⟨[80], [112], [40, 76, 83, 59, 41, 86]⟩⟩,
                 ⟨some 1, none, .load 0 0⟩,
